@@ -11,6 +11,7 @@ import (
 	"fmt"
 	"os"
 	"runtime/debug"
+	"runtime/pprof"
 	"strconv"
 	"strings"
 	"time"
@@ -23,11 +24,34 @@ func main() {
 	if len(os.Args) < 2 {
 		usage()
 	}
+	// the loaded program is ~1 GB of live heap: collect less often
+	debug.SetGCPercent(400)
+	if pf := os.Getenv("GSA_PROF"); pf != "" {
+		f, err := os.Create(pf)
+		if err == nil {
+			_ = pprof.StartCPUProfile(f)
+			go func() {
+				time.Sleep(25 * time.Second)
+				pprof.StopCPUProfile()
+				f.Close()
+				os.Exit(9)
+			}()
+		}
+	}
 	switch os.Args[1] {
 	case "list":
 		for _, id := range rules.IDs() {
 			fmt.Println(id)
 		}
+	case "lincon":
+		// debug: gsa lincon <pkg> <func> — print E1's obligations for one entry
+		os.Exit(rules.DebugLincon(os.Args[2], os.Args[3]))
+	case "linworker":
+		i, _ := strconv.Atoi(os.Args[3])
+		n, _ := strconv.Atoi(os.Args[4])
+		os.Exit(rules.LinWorker(os.Args[2], i, n))
+	case "entries":
+		os.Exit(rules.DebugEntries())
 	case "manifest":
 		os.Exit(manifest())
 	case "check":
@@ -164,15 +188,15 @@ func manifest() int {
 		p := rules.Get(id)
 		claimed[id] = true
 		checks = append(checks, obj{
-			"property_id":          id,
-			"quick_cmd":            "./check " + id + " quick",
-			"thorough_cmd":         "./check " + id + " thorough",
-			"evidence_file":        "/verif/evidence/" + id + ".json",
-			"replay_cmd_template":  "./bin/gsa explain {path}",
-			"engine":               "gsa",
-			"technique":            p.Technique,
-			"level_claimed":        obj{"category": p.Level, "text": p.Explanation, "design_ref": p.DesignRef},
-			"level_note":           p.Note,
+			"property_id":         id,
+			"quick_cmd":           "./check " + id + " quick",
+			"thorough_cmd":        "./check " + id + " thorough",
+			"evidence_file":       "/verif/evidence/" + id + ".json",
+			"replay_cmd_template": "./bin/gsa explain {path}",
+			"engine":              "gsa",
+			"technique":           p.Technique,
+			"level_claimed":       obj{"category": p.Level, "text": p.Explanation, "design_ref": p.DesignRef},
+			"level_note":          p.Note,
 		})
 	}
 	var na []obj
